@@ -289,3 +289,20 @@ CHECKS["C15"] = {
     "technique": "contract-based deductive verification: relational lemmas - symbolic execution of the real model pipeline on a skeleton and its rewrite over shared canonical symbols, stepwise z3 proofs (rates, widths, log-density); attribute-read frame obligation over the inference contracts; native replay of the rewrite on concrete models",
 }
 NOT_APPLICABLE.pop("C15", None)
+
+CHECKS["C04"] = {
+    "category": "proof",
+    "text": ("The decidable part only. (F) The primitive methods of the four backends and the wrappers of probability.py are executed symbolically on the "
+             "current source with the library special functions uninterpreted: numpy / jax poisson_logpdf == xlogy(n, lam) - lam - gammaln(n + 1), "
+             "poisson == exp of it, the hand-written normal_logpdf == -log s - log sqrt(2 pi) - (x - mu)^2 / (2 s^2) (proved from sqrt(2)^2 = 2 and "
+             "log(ab) = log a + log b), normal / normal_cdf forward (x, loc=mu, scale=s) to norm.pdf / norm.cdf; pytorch forwards to Poisson(rate=lam, "
+             "validate_args=False).log_prob(n), Normal(mu, s).log_prob(x), normal_cdf == erfc(-((x - mu)/s)/sqrt 2)/2, non-log variants are exponentials "
+             "of the log variants; tensorflow forwards to tfp Poisson / Normal log_prob / prob / cdf; poisson_dist / normal_dist and probability.Poisson / "
+             "Normal / Independent evaluate the same primitives with (value, rate) / (value, loc, scale), Independent sums over the last axis. (D) astensor of "
+             "every backend x precision x input kind against a dtype-tracking model of the conversion functions: the result has the backend's dtype and "
+             "the value never passes through a narrower float type. NOT decided: the accuracy claims of the statement (few ulps, far tails, lam = 0, large "
+             "counts, 32b tolerances) - floating-point behaviour of external special functions."),
+    "note": "library special functions and distributions are uninterpreted (trusted); floats as reals; the dtype model of tf.convert_to_tensor / np.asarray / torch.as_tensor is assumed",
+    "technique": "contract-based deductive verification: symbolic execution of the backend primitives with uninterpreted library functions, formula and forwarding postconditions discharged by z3; dtype-path contract of astensor; native replay against scipy",
+}
+NOT_APPLICABLE.pop("C04", None)
